@@ -15,11 +15,17 @@ RULE = ("requests are drawn from VERIF_SEED: objective class x starting point/of
         "outcome, trace-length bucket)")
 CORR_ONLY = ["convergence 'within the distance implied by the tolerance' (no theorem: Nelder-Mead has no general convergence "
              "proof): decided by the oracle on the implementation's output. 1-D (Find_Minimum/Find_Maximum on quadratic, quartic-flat, "
-             "rational, asymmetric, Lennard-Jones-like, cosh-like bowls): |x - x*| <= 2*(tol*|x*| + 2^-52)/(1 - 2*tol) + 2^-50*|x*| (Brent's own stopping bound; worst observed 1.24 of the 2) or f(x) within 64 running "
-             "rounding-error bounds of the minimum. n-D quadratic bowls (proper simplex of ndim+1 vertices): f(result) - f* <= "
-             "256*ftol*(|f(result)| + |f*| + 1e-10 + largest initial excess) + rounding; enforced for dims 1-2 with step/distance >= 0.03 "
-             "(empirical constant: worst 156/256 over 22401 runs; with 64, 0.05% of the runs exceed it by up to 2.4x - premature stops of the fractional stopping rule); the failures for step/distance < 0.03 and for dims >= 3 are the genuine known "
-             "findings C11-nm-premature-termination / C11-nm-collapse-3d (emitted under two fixed clauses)",
+             "rational, asymmetric, Lennard-Jones-like, cosh-like bowls, centres and starts up to 1e9): |x - x*| <= 2*(tol*|x*| + 2^-52)/(1 - 2*tol) "
+             "+ 2^-50*|x*| (Brent's own stopping bound; worst observed 1.24 of the 2) or f(x) within 8 running rounding-error bounds of the "
+             "minimum (worst observed 2.73). n-D quadratic bowls, proper simplex of ndim+1 vertices (other vertex counts are outside the "
+             "documented use of the general overload): f(result) - f* <= 256*ftol*(|f(result)| + |f*| + 1e-10) + rounding, or the result "
+             "within 16*ndim*eps*|x*_j| of the minimiser (the resolution of the doubles around it). The stopping rule of the method "
+             "(theorem nm_exit_rule: the VALUES of the vertices agree to ftol) implies no bound on that excess, so every failure of the "
+             "clause with the rule obeyed is the known defect of the rule, emitted under three fixed clauses: initial simplex much smaller "
+             "than its distance to the minimiser (step/distance < 0.03), three or more dimensions, and dimensions 1-2 with a well-sized "
+             "simplex whose vertex values tie (CL_TIE); a failure with the rule NOT obeyed is an unexcused violation (CL_CONV / CL_STOP)",
+             "an 'NMAX exceeded' exit on a quadratic bowl is a violation: dimensions 1-2 under the clause of the 1-D exits, dimensions >= 3 "
+             "under a clause of its own (a degenerate simplex creeping at the resolution of the doubles can still exhaust NMAX there)",
              "cosh-like bowls: evaluated by the harness only (the rational model answers undef), oracle clauses only",
              "brent_in_bracket under IEEE rounding (theorem brent_in_bracket is for exact arithmetic; bookkeeping half for every rnd)",
              "psum = column sums under IEEE rounding (theorem nm_psum_colsums is for exact arithmetic)"]
@@ -45,7 +51,27 @@ def _constants_translator(verif):
 def pre_build(c):
     """regenerate lean/LpModel/C11/Constants.lean from the repository under check (called by check.py with
     the lake lock held, before `lake build`); a missing anchor is recorded, never an alarm"""
-    return _constants_translator(c["verif"]).regenerate("C11", c["repo"], c["lean"])
+    notes = _constants_translator(c["verif"]).regenerate("C11", c["repo"], c["lean"])
+    notes["features"] = _regenerate_features(c["repo"], c["lean"])
+    return notes
+
+
+def _regenerate_features(repo, lean):
+    """lean/LpModel/C11/Features.lean: optional code paths of the source (present -> mirrored by the model)"""
+    import os, re
+    src = open(os.path.join(repo, "src", "Numerics.cpp")).read()
+    m = re.search(r"const\s+double\s+resolution\s*=\s*([0-9.eE+-]+)\s*\*\s*ndim\s*\*\s*std::numeric_limits<double>::epsilon\(\)\s*;", src)
+    val = "none"
+    if m:
+        fr = Fraction(m.group(1))
+        val = "some (%d / %d)" % (fr.numerator, fr.denominator)
+    path = os.path.join(lean, "LpModel", "C11", "Features.lean")
+    old = open(path).read()
+    new = re.sub(r"abbrev collapseFactor : Option Rat := .*", "abbrev collapseFactor : Option Rat := " + val, old)
+    if new != old:
+        with open(path, "w") as fh:
+            fh.write(new)
+    return {"collapseFactor": val, "rewritten": new != old}
 
 
 TINY_BITS = 30          # a model margin below 2^-30 excuses a divergence (DESIGN.md §4, class C)
@@ -301,6 +327,11 @@ def parse_req(rq):
         R["xl"] = c.dbl(); R["xr"] = c.dbl(); R["tol"] = c.dbl()
         finish_parse(R, c)
         return R
+    if op in ("c11.mindef", "c11.maxdef"):      # default tolerance argument (documented: 3e-8)
+        R = dict(op=op[:-3], deftol=True)
+        R["xl"] = c.dbl(); R["xr"] = c.dbl(); R["tol"] = 3e-8
+        finish_parse(R, c)
+        return R
     ftol = c.dbl()
     if op == "c11.nmre":
         R = dict(op="c11.nm1", ftol=ftol, nested=True)
@@ -388,7 +419,8 @@ def gen_quadN(rng, n):
 
 def gen_1d_objective(rng, cls):
     """returns (prog, meta tokens, centre used to place the starting points, positive-domain flag)"""
-    c = rng.choice([0.0, dy(rng, -8, 8), dy(rng, -100, 100), rng.uniform(-3, 3), rng.uniform(-1e3, 1e3)])
+    c = rng.choice([0.0, dy(rng, -8, 8), dy(rng, -100, 100), rng.uniform(-3, 3), rng.uniform(-1e3, 1e3),
+                    rng.choice([1, -1]) * logu(rng, 3, 9) if cls != "ratbowl" else rng.uniform(-1e3, 1e3)])
     off = rng.choice([0.0, 0.0, 1.0, dy(rng, -8, 8), rng.uniform(-100, 100)])
     if cls == "quad1":
         a = rng.choice([1.0, 0.5, 2.0, logu(rng, -2, 2)])
@@ -446,7 +478,10 @@ def gen_1d(rng, n, R, ctx):
         op = "c11.max" if i % 5 == 4 else "c11.min"
         if op == "c11.max":
             prog = prog + ["neg"]
-        R.append(req_1d(op, xl, xr, tol, prog, meta + ["od=%d" % math.floor(od), "hd=%d" % math.floor(hd)]))
+        if i % 9 == 3:      # the overloads with the default tolerance argument
+            R.append("%sdef %s %s %s %s" % (op, hx(xl), hx(xr), toklist(prog), toklist(meta + ["od=%d" % math.floor(od), "hd=%d" % math.floor(hd)])))
+        else:
+            R.append(req_1d(op, xl, xr, tol, prog, meta + ["od=%d" % math.floor(od), "hd=%d" % math.floor(hd)]))
     # exact ties between the two starting values, in both orders of the abscissae (xLeft > xRight included): symmetric
     # objectives with dyadic centre and half-width, so that f(xLeft) == f(xRight) bit-for-bit
     for t in range(max(8, n // 16)):
@@ -522,7 +557,13 @@ def gen_nd(rng, n, R, ctx, maxdim=6):
             prog = p_multiN(dim, cs); c = [0.0] * dim
             meta = meta_tokens("multiN")
         else:
-            B, d, cond = gen_quadN(rng, dim)
+            if dim == 2 and rng.random() < 0.35:
+                # rotated narrow valley: orthogonal rows (1,t),(-t,1), curvatures 1 and kappa in 1e3..1e4
+                t_ = rng.choice([0.25, 0.5, 1.0, -0.5, rng.uniform(-1, 1)])
+                kap = logu(rng, 3, 4)
+                B, d, cond = [[1.0, t_], [-t_, 1.0]], [1.0, kap], kap
+            else:
+                B, d, cond = gen_quadN(rng, dim)
             c = [rng.choice([0.0, dy(rng, -8, 8), rng.uniform(-3, 3), rng.uniform(-300, 300)]) for _ in range(dim)]
             off = rng.choice([0.0, 0.0, 1.0, dy(rng, -8, 8), rng.uniform(-100, 100)])
             prog = p_quadN(B, d, c, off)
@@ -532,7 +573,7 @@ def gen_nd(rng, n, R, ctx, maxdim=6):
         ftol = rng.choice([logu(rng, -12, -3), 10.0 ** -rng.randint(3, 12), 1e-6])
         start = [c[j] + rng.choice([1, -1]) * 10.0 ** od * rng.uniform(0.3, 1) for j in range(dim)]
         meta = meta + ["od=%d" % math.floor(od), "hd=%d" % math.floor(hd), "dim=%d" % dim]
-        kind = i % 4
+        kind = rng.randrange(4)      # independent of the dimension: every overload meets every dimension
         if kind == 0:      # delta overload + its two companions (same documented simplex)
             delta = rng.choice([1, -1]) * 10.0 ** hd
             g = "g%d" % i
@@ -572,7 +613,8 @@ def gen_nd(rng, n, R, ctx, maxdim=6):
         n = 1 + t % 4
         c = [dy(rng, -4, 4, 2) for _ in range(n)]
         h = 2.0 ** rng.randint(-2, 2)
-        prog = p_quadN([[1.0 if i == j else 0.0 for j in range(n)] for i in range(n)], [1.0] * n, c, rng.choice([0.0, 1.0]))
+        off_t = rng.choice([0.0, 1.0])
+        prog = p_quadN([[1.0 if i == j else 0.0 for j in range(n)] for i in range(n)], [1.0] * n, c, off_t)
         top = list(c); top[0] = c[0] + 2 * h
         others = []
         if n == 1:
@@ -589,7 +631,7 @@ def gen_nd(rng, n, R, ctx, maxdim=6):
         pp = [top] + others
         rng.shuffle(pp)
         R.append(req_nd("c11.nm", rng.choice([1e-3, 1e-6, 1e-9]), "%d %s" % (len(pp), " ".join(lst(r) for r in pp)), prog,
-                        meta_tokens("tie") + ["dim=%d" % n]))
+                        meta_tokens("quadN", c, off_t) + ["dim=%d" % n, "tie=1"]))
     # minimal witness of the known finding C11-nm-premature-termination: x^2+y^2 from (1000,1000), delta 1e-3, ftol 1e-5
     R.append(req_nd("c11.nm1", 1e-5, "%s %s" % (lst([1000.0, 1000.0]), hx(1e-3)), q2, meta_tokens("quadN", [0.0, 0.0], 0.0) + ["dim=2"]))
 
@@ -732,6 +774,36 @@ def gen_re(rng, n, R):
             toklist(prog), toklist(meta_tokens("nested") + ["dim=%d" % nd, "inner=%d" % md])))
 
 
+def gen_nd_bigc(rng, n, R):
+    """quadratic bowls whose minimum VALUE is 0 and whose minimiser has large coordinates (|c_j| in 1e3..1e9): the
+    fractional stopping rule then needs |y_hi - y_lo| < 5e-11*ftol, below the granularity lambda*ulp(c)^2 of the objective
+    around the minimiser - 'from any starting point and scale'.  Dimensions 5-6, cond > 1e3 and ftol <= 1e-11 boosted."""
+    for i in range(n):
+        dim = rng.choice([1, 2, 2, 3, 4, 5, 5, 6, 6])
+        B, d, cond = gen_quadN(rng, dim)
+        if dim > 1 and rng.random() < 0.5:
+            for _ in range(40):
+                if cond > 1e3:
+                    break
+                B, d, cond = gen_quadN(rng, dim)
+        c = [rng.choice([1, -1]) * logu(rng, 3, 9) for _ in range(dim)]
+        prog = p_quadN(B, d, c, 0.0)
+        ftol = rng.choice([1e-12, 1e-11, 1e-12, logu(rng, -12, -9)])
+        od, hd = rng.uniform(-3, 3), rng.uniform(-3, 3)
+        start = [c[j] + rng.choice([1, -1]) * 10.0 ** od * rng.uniform(0.3, 1) for j in range(dim)]
+        meta = meta_tokens("quadN", c, 0.0, extra={"cond": "%.3g" % cond}) + ["od=%d" % math.floor(od), "hd=%d" % math.floor(hd), "dim=%d" % dim, "bigc=1"]
+        kind = rng.randrange(3)
+        if kind == 0:
+            R.append(req_nd("c11.nm1", ftol, "%s %s" % (lst(start), hx(rng.choice([1, -1]) * 10.0 ** hd)), prog, meta))
+        elif kind == 1:
+            R.append(req_nd("c11.nmd", ftol, "%s %s" % (lst(start), lst([rng.choice([1, -1]) * 10.0 ** (hd + rng.uniform(-0.5, 0.5)) for _ in range(dim)])), prog, meta))
+        else:
+            pp = [list(start) for _ in range(dim + 1)]
+            for r in range(1, dim + 1):
+                pp[r][r - 1] = start[r - 1] + rng.choice([1, -1]) * 10.0 ** (hd + rng.uniform(-0.5, 0.5))
+            R.append(req_nd("c11.nm", ftol, "%d %s" % (len(pp), " ".join(lst(r) for r in pp)), prog, meta))
+
+
 def gen_multi(rng, n, R):
     """small multimodal objectives (sums of double wells): non-convex, so the shrink step occurs while the best vertex
     is not stored first - the descent / consistency clauses on 'arbitrary multimodal objectives'"""
@@ -783,7 +855,7 @@ def gen_seq(rng, nlong, nshort, R):
         ms = []
         for j in range(n):
             kind = rng.choice(["nm", "nm1", "nmd"]) if (not long_ or j < 3) else "nm"
-            dim = 2 if rng.random() < 0.6 else 3
+            dim = rng.choice([1, 2, 2, 3, 3, 4] + ([5, 6] if (not long_ or rng.random() < 0.08) else [2, 3]))
             mtxt = member(kind, dim, ftol)
             ms.append(mtxt)
             # argument aliasing: restart from the object's own state (the Numerical-Recipes restart idiom), with the same
@@ -813,14 +885,16 @@ def generate(tier, seed, ctx):
         gen_1d_origin(rng, 480, R)
         gen_nd(rng, 900, R, ctx)
         gen_multi(rng, 400, R)
+        gen_nd_bigc(rng, 160, R)
         gen_seq(rng, 8, 24, R)
         gen_straddle(rng, 120, R, ctx)
         gen_re(rng, 40, R)
     else:
         gen_1d(rng, 400, R, ctx)
         gen_1d_origin(rng, 96, R)
-        gen_nd(rng, 100, R, ctx)
-        gen_multi(rng, 60, R)
+        gen_nd(rng, 84, R, ctx)
+        gen_multi(rng, 48, R)
+        gen_nd_bigc(rng, 14, R)
         gen_seq(rng, 2, 5, R)
         gen_straddle(rng, 24, R, ctx)
         gen_re(rng, 6, R)
@@ -911,11 +985,11 @@ def conv_1d(R, x, ctx):
         return "objective undefined at the returned point"
     fs = Fraction(R["fs"])
     _, es = ev_exact(prog, [cands[0]])
-    if v - fs <= 64 * (e + (es or 0)) + Fraction(1, 10 ** 300):
+    if v - fs <= 8 * (e + (es or 0)) + Fraction(1, 10 ** 300):
         bump(ctx, "conv1d.within-rounding-flat")
         return None
     return "returned point %r is %.3g away from the minimiser (allowed %.3g) and f exceeds the minimum by %.3g (rounding allowance %.3g)" % (
-        x, best[0], best[1], sf(v - fs), sf(64 * (e + (es or 0))))
+        x, best[0], best[1], sf(v - fs), sf(8 * (e + (es or 0))))
 
 
 KCONV_ND = 256          # empirical (the stopping rule bounds the spread of the vertex values, not the excess over the minimum):
@@ -930,35 +1004,48 @@ CL_CONV = "minimize: not within the tolerance-implied distance of the minimiser 
 
 def conv_nd(R, I, ctx):
     """convergence clause on strictly convex quadratic bowls, evaluated on exact values: the excess of f(result) over
-    the minimum is at most K*ftol*(|f(result)| + |f*| + TINY + largest initial excess), plus a rounding allowance.
-    Claimed for proper simplices (ndim+1 vertices).  Returns (clause, message) or None."""
+    the minimum is at most K*ftol*(|f(result)| + |f*| + TINY) plus a rounding allowance - or the returned point is as close
+    to the minimiser as the doubles around it allow (16*ndim*eps*|x*_j| per coordinate).  Claimed for proper simplices
+    (ndim+1 vertices, the documented use of the general overload).  Returns (clause, message) or None."""
     prog = R["prog"]
     pp = simplex_of(R)
     nd = I["nd"]
-    if len(pp) != nd + 1 or "fixed" in R["meta"]:
+    if len(pp) != nd + 1 or not (R["ftol"] > 0):
         return None
     v, e = ev_exact(prog, I["pmin"])
     fs = Fraction(R["fs"])
     _, es = ev_exact(prog, R["xs"])
-    gw = max(ev_exact(prog, r)[0] for r in pp) - fs
     gap = v - fs - 64 * (e + es)
-    allow = Fraction(KCONV_ND) * Fraction(R["ftol"]) * (abs(v) + abs(fs) + Fraction(1, 10 ** 10) + gw)
+    allow = Fraction(KCONV_ND) * Fraction(R["ftol"]) * (abs(v) + abs(fs) + Fraction(1, 10 ** 10))
     size0 = max(max(abs(a - b) for a, b in zip(r, pp[0])) for r in pp)
     dist0 = max(abs(a - b) for a, b in zip(pp[0], R["xs"]))
     small = dist0 > 0 and size0 < SD_MIN * dist0
     regime = "small-simplex" if small else ("dim>=3" if nd >= 3 else "dim<=2")
     bump(ctx, "convND." + regime)
     if gap <= allow:
-        if regime == "dim<=2" and allow > 0:
-            key = "convND.dim<=2.max_ratio_permille_of_K"
-            ctx["stats"][key] = max(ctx["stats"].get(key, 0), int(1000 * sf(gap / allow)))
+        return None
+    if all(abs(Fraction(a) - Fraction(b)) <= 16 * nd * Fraction(1, 2 ** 52) * abs(Fraction(b)) for a, b in zip(I["pmin"], R["xs"])):
+        bump(ctx, "convND.at-resolution-of-doubles")
         return None
     bump(ctx, "convND." + regime + ".exceeds")
     msg = "f(result) exceeds the minimum by %.3g, allowed %.3g (ftol %.3g, dim %d, step/distance %.3g, %d evaluations)" % (
         sf(gap), sf(allow), R["ftol"], nd, size0 / dist0 if dist0 else math.inf, len(I["tr"]))
-    return (CL_PREMATURE if small else CL_COLLAPSE if nd >= 3 else CL_CONV), msg
+    if small:
+        return CL_PREMATURE, msg
+    if nd >= 3:
+        return CL_COLLAPSE, msg
+    # dimensions 1-2, well-sized simplex: if the implementation obeyed its stopping rule (theorem nm_exit_rule: the
+    # vertex values tie within the band 2|y_hi-y_lo| < ftol(|y_hi|+|y_lo|+TINY)), the stop is the rule's doing - the values
+    # tie although the vertices do not; anything else is an unexplained failure
+    if stopping_rule(R["ftol"], I["y"], I["rows"]) is None:
+        return CL_TIE, msg
+    return CL_CONV, msg
 
 
+CL_TIE = ("minimize: stops far from the minimiser of a quadratic bowl because the vertex values tie within the band of the "
+          "stopping rule although the vertices are far apart (fractional function-value stopping rule)")
+CL_EXIT_NMAX_3D = ("minimize: terminates the process ('NMAX exceeded') on a quadratic bowl in three or more dimensions "
+                   "(degenerate simplex creeping at the resolution of the doubles)")
 CL_EXIT_BOWL = ("terminates the process (iteration-limit diagnostic) on an objective of the stated bowl classes instead of "
                 "returning a point")
 CL_HISTORY = "minimize: the result depends on earlier runs of the same Minimization object"
@@ -1034,12 +1121,20 @@ def compare_seq(R, rq, impl, model, ctx):
             continue
         if i >= len(seq):
             out.append(fail("corr", "protocol: shared-object answer missing", "member %d" % i)); break
-        if tag(fr) == "ok" and toks(seq[i]) != toks(fr):
-            Is, If = parse_impl_nd(seq[i]), parse_impl_nd(fr)
-            what = [kk for kk in ("pmin", "fmin", "nfunc", "y", "rows", "tr") if Is[kk] != If[kk] and not (kk == "fmin" and same(Is[kk], If[kk]))]
+        if tag(fr) != "ok":
+            continue
+        Is, If = parse_impl_nd(seq[i]), parse_impl_nd(fr)
+        ns, nf = (Is["trh"][0] if Is["tr"] is None else len(Is["tr"])), len(If["tr"])
+        if Is["tr"] is None:        # the shared-object run reports a digest of its trace
+            Is = dict(Is, tr=[()] * ns, trd=Is["trh"]); If = dict(If, trd=trace_digest(If["tr"]))
+        else:
+            Is = dict(Is, trd=Is["tr"]); If = dict(If, trd=If["tr"])
+        what = [kk for kk in ("pmin", "fmin", "nfunc", "y", "rows", "fre", "yre", "trd")
+                if Is[kk] != If[kk] and not (kk in ("fmin", "fre") and same(Is[kk], If[kk])) and not (kk in ("y", "yre") and all(same(a, b) for a, b in zip(Is[kk], If[kk])) and len(Is[kk]) == len(If[kk]))]
+        if what:
             d = "run %d of %d on one object (%d evaluations in earlier runs)%s differs from the fresh-object run in %s: nfunc %d vs %d, %d vs %d evaluations" % (
                 i + 1, len(mem), total - len(If["tr"]), " [%s restart: argument aliases the object's own simplex; fresh object given a copy]" % Rm["restart"] if Rm.get("restart") else "",
-                ",".join(what), Is["nfunc"], If["nfunc"], len(Is["tr"]), len(If["tr"]))
+                ",".join(what).replace("trd", "trace"), Is["nfunc"], If["nfunc"], ns, nf)
             if first_diff is None:
                 first_diff = d
             if "pmin" in what and point_diff is None:
@@ -1099,7 +1194,8 @@ def compare(rq, impl, model, ctx):
         if bowl and R["cls"] in BOWL_ND and len(simplex_of(R)) != len(simplex_of(R)[0]) + 1:
             bowl = False          # not a proper simplex: outside the documented use of the general overload
         if bowl:
-            out.append(fail("prop", CL_EXIT_BOWL, "class %s, tolerance %r; model: %s" % (R["cls"], R.get("tol", R.get("ftol")), tm)))
+            cl = CL_EXIT_NMAX_3D if (R["cls"] in BOWL_ND and len(simplex_of(R)[0]) >= 3) else CL_EXIT_BOWL
+            out.append(fail("prop", cl, "class %s, tolerance %r; model: %s" % (R["cls"], R.get("tol", R.get("ftol")), tm)))
         elif tm == "ok":
             out.append(fail("corr", "iteration-limit exit (diagnostic) on a request where the model converges", ""))
         return out
@@ -1144,6 +1240,10 @@ def parse_impl_1d(R, impl):
     if R["op"] == "c11.max":
         x2 = fl(rest[0]); fx2 = fl(rest[1]); n2 = int(rest[2])
         second = (x2, fx2, [fl(v) for v in rest[3:3 + n2]])
+        rest = rest[3 + n2:]
+    if R.get("deftol"):
+        x3 = fl(rest[0]); n3 = int(rest[2])
+        R["_explicit"] = (x3, [fl(v) for v in rest[3:3 + n3]])
     return x, fx, tr, second
 
 
@@ -1176,6 +1276,12 @@ def oracle_1d(R, impl, ctx):
             if (not mx and fx > best) or (mx and fx < best):
                 out.append(fail("prop", name + ": a better evaluated point was discarded (best-so-far bookkeeping)",
                                 "f(result)=%r best evaluated=%r" % (fx, best)))
+    if R.get("deftol") and "_explicit" in R:
+        x3, tr3 = R["_explicit"]
+        bump(ctx, "default-tolerance")
+        if not same(x3, x) or tr3 != tr:
+            out.append(fail("prop", name + ": the default tolerance is not the documented 3e-8 (differs from the call with 3e-8 written out)",
+                            "%r (%d evals) vs %r (%d evals)" % (x, len(tr), x3, len(tr3))))
     if mx and second is not None:
         x2, fx2, tr2 = second
         if not same(x2, x):
@@ -1249,6 +1355,16 @@ def corr_1d(R, impl, model, ctx):
     return out
 
 
+def trace_digest(tr):
+    """the harness's digest of a trace: (length, 64-bit hash of the doubles)"""
+    import struct
+    h = 1469598103934665603
+    for pnt in tr:
+        for v in pnt:
+            h = ((h ^ struct.unpack("<Q", struct.pack("<d", v))[0]) * 1099511628211) & 0xFFFFFFFFFFFFFFFF
+    return (len(tr), "%016x" % h)
+
+
 def parse_impl_nd(impl):
     t = toks(impl)
     i = 0
@@ -1265,13 +1381,18 @@ def parse_impl_nd(impl):
     yre = [fl(v) for v in t[i:i + m]]; i += m
     n = int(t[i]); i += 1
     tr = []
-    for _ in range(n):
-        tr.append(tuple(fl(v) for v in t[i:i + nd])); i += nd
+    trh = None
+    if i < len(t) and t[i].startswith("H"):      # digest of the trace (shared-object runs of c11.nmseq)
+        trh = (n, t[i][1:]); i += 1
+        tr = None
+    else:
+        for _ in range(n):
+            tr.append(tuple(fl(v) for v in t[i:i + nd])); i += nd
     tv = None
     if i < len(t):          # c11.nmre: the value the callback returned at every evaluation
         nv = int(t[i]); i += 1
         tv = [fl(v) for v in t[i:i + nv]]
-    return dict(nd=nd, pmin=pmin, fmin=fmin, nfunc=nfunc, y=y, rows=rows, fre=fre, yre=yre, tr=tr, tv=tv)
+    return dict(nd=nd, pmin=pmin, fmin=fmin, nfunc=nfunc, y=y, rows=rows, fre=fre, yre=yre, tr=tr, tv=tv, trh=trh)
 
 
 def same(a, b):
@@ -1282,14 +1403,20 @@ CL_STOP = ("minimize: returns although the fractional spread 2|y_hi-y_lo|/(|y_hi
            "values is not below ftol (stopping rule, theorem nm_exit_rule)")
 
 
-def stopping_rule(ftol, y):
-    """on return the highest and lowest reported vertex values satisfy the documented stopping rule; evaluated exactly,
-    with 2^-45 relative slack for the four roundings of the double computation"""
+def stopping_rule(ftol, y, rows=None):
+    """on return the highest and lowest reported vertex values satisfy the documented stopping rule (evaluated exactly,
+    2^-45 relative slack for the four roundings of the double computation) - or the reported simplex has shrunk to the
+    resolution of the doubles around its best vertex (every coordinate within 8*ndim*eps*|p_0j| of it), where no step of
+    the method can resolve anything any more"""
     if not y or any(math.isnan(v) or math.isinf(v) for v in y) or math.isnan(ftol):
         return None
     yh, yl = Fraction(max(y)), Fraction(min(y))
     rt = 2 * abs(yh - yl) / (abs(yh) + abs(yl) + Fraction(1e-10))
     if rt > Fraction(ftol) * (1 + Fraction(1, 2 ** 45)):
+        if rows:
+            nd = len(rows[0])
+            if all(abs(Fraction(a) - Fraction(b)) <= 8 * nd * Fraction(1, 2 ** 52) * abs(Fraction(b)) for r in rows for a, b in zip(r, rows[0])):
+                return None
         return "y_hi=%r y_lo=%r: spread %.3g, ftol %.3g" % (max(y), min(y), sf(rt), ftol)
     return None
 
@@ -1315,9 +1442,14 @@ def oracle_nd(R, impl, ctx, rq):
         out.append(fail("prop", name + ": fmin is not y[0]", "%r vs %r" % (I["fmin"], I["y"][0])))
     if any(v < I["y"][0] for v in I["y"]):
         out.append(fail("prop", name + ": reported simplex is not best-first", "y=%r" % (I["y"][:8],)))
-    msg = stopping_rule(R["ftol"], I["y"])
+    msg = stopping_rule(R["ftol"], I["y"], I["rows"])
     if msg:
         out.append(fail("prop", CL_STOP, msg))
+    # nfunc accounting: for a proper simplex every evaluation after the first mpts is counted (reflection 1, reflection +
+    # expansion / contraction 2, shrink ndim more)
+    if len(I["y"]) == I["nd"] + 1 and I["nfunc"] != len(I["tr"]) - len(I["y"]):
+        out.append(fail("prop", name + ": nfunc is not the number of evaluations after the initial simplex",
+                        "nfunc=%d evaluations=%d mpts=%d" % (I["nfunc"], len(I["tr"]), len(I["y"]))))
     pp = simplex_of(R)
     # nested objective (re-entrant use): the values are those the callback itself returned
     vals = (I["tv"] or [])[:len(pp)] if nested else [ev_float(prog, r) for r in pp]
